@@ -34,8 +34,10 @@ FINDINGS = ["prio-last-column-indexerror", "empty-token-shifts-columns"]
 
 # ------------------------------------------------------------------------------- tokens <-> classes
 def tok(cls: str, i: int) -> str:
-    return {"w": f"w{i}.x", "py": f"py:t{i}", "std": f"std:t{i}", "pyx": f"pyramid:t{i}",
-            "int": "-1" if i % 2 == 0 else str(i), "e": "", "d": f"u{i}.html#x-$"}[cls]
+    # representatives look like what the writer emits for real projects: locations are percent-quoted
+    # (Caf%C3%A9.html, run%20me.html), so a '%' can stand in any column of a damaged line
+    return {"w": f"w{i}%20x.y" if i % 2 else f"w{i}.x", "py": f"py:t{i}", "std": f"std:t{i}", "pyx": f"pyramid:t{i}",
+            "int": "-1" if i % 2 == 0 else str(i), "e": "", "d": f"u{i}%C3%A9.html#x-$"}[cls]
 
 
 def classify(token: str) -> str:
@@ -314,9 +316,9 @@ def judge_project(ctx: Ctx, system: Any, origin: str, model_rt: Dict[Tuple[bool,
 # ------------------------------------------------------------------------------------------ update
 LINE_TEXT = {"py": "pkg.mod{i} py:module -1 pkg.mod{i}.html -",
              "std": "some label{i} std:label -1 index.html#l{i} Some Title",
-             "noint": "name{i} py:class x y",
-             "priolast": "a{i} py:x 1",
-             "nodisplay": "b{i} py:class 1 loc",
+             "noint": "name{i} py:class Caf%C3%A9.html y",
+             "priolast": "a{i}%20b py:x 1",
+             "nodisplay": "b{i} py:class 1 run%20me.html",
              "blank": "",
              "pyx": "some.view{i} pyramid:view 1 views.html#v{i} -"}
 
@@ -381,6 +383,61 @@ def run_update(cfg: Dict[str, Any]) -> Dict[str, Any]:
     return {"raised": raised, "errors": len(log.messages), "links": links, "messages": [m[1] for m in log.messages][:4]}
 
 
+# -------------------------------------------------------------------------- several inventories in one run
+class _Resp:
+    def __init__(self, content: bytes):
+        self.content = content
+
+
+class ScriptedSession:
+    """requests.Session stand-in: per URL a body, or an exception that is NOT about reaching the host."""
+
+    def __init__(self, plan: Dict[str, Any]):
+        self.plan = plan
+        self.asked: List[str] = []
+
+    def get(self, url: str, **kw: Any) -> Any:
+        import requests
+        self.asked.append(url)
+        what = self.plan[url]
+        if what == "exception":
+            raise requests.exceptions.ContentDecodingError("Received response with content-encoding: gzip, but failed to decode it")
+        return _Resp(what)
+
+    def close(self) -> None:
+        pass
+
+
+def run_multi(cfg: List[Dict[str, str]]) -> Dict[str, Any]:
+    """The real System.fetchIntersphinxInventories over the real IntersphinxCache for a sequence of URLs."""
+    import logging
+    from pydoctor import model, sphinx
+    urls, plan, names = [], {}, []
+    for i, c in enumerate(cfg, 1):
+        url = f"https://{c['host']}.example/{i}/objects.inv"
+        urls.append(url)
+        names.append(f"pkg{i}.mod")
+        good = HEADER + zlib.compress(f"pkg{i}.mod py:module -1 pkg{i}.mod.html -\npkg{i}.mod.f py:function -1 pkg{i}.mod.html#f -\n".encode())
+        plan[url] = {"ok": good, "junk": b"<html><body>404 not found</body></html>", "exception": "exception"}[c["out"]]
+    quiet = logging.getLogger("verif.c17.quiet")
+    quiet.addHandler(logging.NullHandler())
+    quiet.propagate = False
+    session = ScriptedSession(plan)
+    cache = sphinx.IntersphinxCache(session, quiet)
+    system = model.System()
+    system.options.verbosity = -3
+    system.options.intersphinx = urls
+    before = system.violations
+    raised = None
+    try:
+        system.fetchIntersphinxInventories(cache)
+    except Exception as e:
+        raised = type(e).__name__
+    links = [i for i, (u, nm) in enumerate(zip(urls, names), 1)
+             if system.intersphinx.getLink(nm) == u.rsplit("/", 1)[0] + f"/{nm}.html"]
+    return {"raised": raised, "errors": system.violations - before, "links": links, "asked": len(session.asked)}
+
+
 # ------------------------------------------------------------------------------------------- check
 def inv_cfg(mode: str, classes: List[str], maxcols: int, maxdepth: int, open_ids: List[str], fixed_ids: List[str]) -> str:
     return (f'SPECIFICATION Spec\nCONSTANTS Mode = "{mode}"\n          Classes = {tla(set(classes))}\n'
@@ -407,7 +464,7 @@ def run(ctx: Ctx) -> int:
     for fid in FINDINGS:
         ctx.register_matcher(fid, kf_matcher(fid, open_ids))
     stats = {k: 0 for k in ("rows", "usable_rows", "lenient_rows", "objects", "updates", "drift", "violations", "file_rows",
-                            "superseded_not_listed", "byte_strings")}
+                            "superseded_not_listed", "byte_strings", "multi")}
     design: List[str] = []
 
     def tlc(mode: str, classes: List[str], maxcols: int = 0, maxdepth: int = 0, env: Optional[Dict[str, str]] = None,
@@ -438,7 +495,9 @@ def run(ctx: Ctx) -> int:
     all_lines: List[str] = []
     for shape in sorted(model_rt):
         src, full = shape_source(list(shape))
-        system = build_system({"m": src, "_priv": "x = 1\n'doc'\nclass Hid:\n    def meth(self): pass\n"}, hidden="_priv.Hid")
+        system = build_system({"m": src, "_priv": "x = 1\n'doc'\nclass Hid:\n    def meth(self): pass\n",
+                               "caf\u00e9": "'doc'\nclass \u00c9lan:\n    'doc'\n    def m\u00e9thode(self): 'd'\n"},
+                              hidden="_priv.Hid")
         if full not in system.allobjects:
             raise MachineryError(f"shape {shape}: generated project has no object {full!r}: {sorted(system.allobjects)}")
         all_lines += judge_project(ctx, system, f"shape{[int(b) for b in shape]}", model_rt, stats, open_ids)
@@ -495,6 +554,7 @@ def run(ctx: Ctx) -> int:
 
     # ---- update: the staged fault model
     r = tlc("update", classes, coverage=True)
+    upd = r.printed
     if r.coverage:
         ctx.extra["action_coverage"] = {a: c for a, c in r.coverage.items() if a in
                                         ("Rsplit", "Fetch", "Payload", "Inflate", "Decode", "Lines")}
@@ -538,9 +598,40 @@ def run(ctx: Ctx) -> int:
         if nupd % 1100 == 1:
             ctx.sample({"cfg": cfg, "observed": obs})
 
+    # ---- several --intersphinx URLs through one cache: every sequence of (host, outcome)
+    r = tlc("multi", classes)
+    for rec in r.printed:
+        cfgm = [dict(x) for x in seq(rec["cfg"])]
+        obs = run_multi(cfgm)
+        ctx.traces += 1
+        stats["multi"] += 1
+        m_links = sorted(seq(rec["links"]))
+        if obs["raised"] is not None or obs["links"] != m_links or obs["errors"] != rec["errors"]:
+            stats["drift"] += 1
+            ctx.drift_note({"urls": cfgm, "model": {"links": m_links, "errors": rec["errors"]}, "real": obs})
+        want_links = [i for i, c in enumerate(cfgm, 1) if c["out"] == "ok"]
+        want_errors = sum(1 for c in cfgm if c["out"] != "ok")
+        bad = []
+        if obs["raised"] is not None:
+            bad.append("NeverRaises")
+        else:
+            if obs["links"] != want_links:
+                bad.append("EachGoodResolves")
+            if obs["errors"] != want_errors:
+                bad.append("ReportsOnce")
+        if bad:
+            stats["violations"] += 1
+            ctx.violation({"invariant": bad[0], "failed": bad, "origin": "multi", "cfg": cfgm, "observed": obs,
+                           "expected": {"raises": False, "links": want_links, "errors": want_errors},
+                           "design_classes": [], "drift": True,
+                           "key": f"multi:{bad}:{[c['out'] for c in cfgm]}:{len({c['host'] for c in cfgm})}"})
+        if stats["multi"] % 100 == 1:
+            ctx.sample({"urls": cfgm, "observed": obs})
+
     # ---- for all byte strings: corrupted copies of a really written inventory (adjunct to the staged model: the
     #      only claims are "never raises" and "something is reported or something resolves")
-    good, _ = write_inventory(ctx, build_system({"m": shape_source([False, True, True])[0], "n": "def f(): 'd'\nx = 1\n'doc'\n"}))
+    good, _ = write_inventory(ctx, build_system({"m": shape_source([False, True, True])[0], "n": "def f(): 'd'\nx = 1\n'doc'\n",
+                                                 "caf\u00e9": "'doc'\nclass \u00c9lan:\n    def m\u00e9thode(self): 'd'\n"}))
     nfuzz = 400 if ctx.quick else 6000
     for _ in range(nfuzz):
         b = bytearray(good)
@@ -585,7 +676,7 @@ def run(ctx: Ctx) -> int:
                                "key": "bytes:silent"})
 
     # ---- negative control: a corrupted observation must be told apart by the comparison with the model
-    rec0 = next(rec for rec in r.printed if rec["pc"] == "done" and seq(rec["links"]))
+    rec0 = next(rec for rec in upd if rec["pc"] == "done" and seq(rec["links"]))
     obs0 = run_update(rec0["cfg"])
     nc = {"dropped_link_detected": obs0["links"][:-1] != sorted(seq(rec0["links"])),
           "extra_message_detected": obs0["errors"] + 1 != rec0["errors"],
@@ -631,6 +722,11 @@ def replay(ctx: Ctx, path: str) -> int:
             nm = " ".join(toks[p - 1] for p in seq(ref["name"]))
             bad = reader.getLink(nm) != expected_url(nm, toks[ref["loc"] - 1])
         print(f"replay: line {line!r} -> {real} / {effect}:", "still violated" if bad else "holds now")
+    elif w.get("origin") == "multi":
+        obs = run_multi(w["cfg"])
+        exp = w["expected"]
+        bad = obs["raised"] is not None or obs["links"] != exp["links"] or obs["errors"] != exp["errors"]
+        print("replay: inventories", json.dumps(w["cfg"]), "->", obs, "still violated" if bad else "holds now")
     elif w.get("origin") == "bytes":
         reader, rlog, rexc = read_back(bytes.fromhex(w["input"]))
         bad = rexc is not None if w["invariant"] == "NeverRaises" else (not rlog.messages and not reader._links)
